@@ -382,11 +382,13 @@ pub fn gen_world(seed: u64) -> C12World {
         em.used_kinds.push("unused-failing-ext-code");
     }
     let mut expect = Expect::Ok;
-    // deliberate mismatches (M8)
+    // deliberate mismatches (M8); half of them write to an -o file that already exists, so that a failing run
+    // which touches the target is seen
+
     let mut extra_flags: Vec<String> = Vec::new();
     let mut drop_input = false;
-    if em.rng.chance(1, 7) {
-        match em.rng.below(10) {
+    if em.rng.chance(1, 6) {
+        match em.rng.below(14) {
             0 if !mode.s && !matches!(value, Json::Str(_)) && mode.m.is_none() => {
                 mode.s = true;
                 mode.y = false;
@@ -429,6 +431,24 @@ pub fn gen_world(seed: u64) -> C12World {
             8 => {
                 body = format!("local v = {body}; if std.length(std.toString(v)) >= 0 then error \"planted failure\" else v");
                 expect = Expect::Fail(1, "program raises an error".into());
+            }
+            10 if matches!(value, Json::Obj(_)) && !use_tla => {
+                // the LAST field (in manifestation order) fails: nothing may have reached stdout / -o by then
+                let bad = if mode.m.is_some() && mode.s && em.rng.chance(1, 2) { "123" } else { "error \"late field failure\"" };
+                body = format!("{body} + {{ zzz_last: {bad} }}");
+                expect = Expect::Fail(1, "last field fails late".into());
+            }
+            11 if matches!(value, Json::Arr(_)) && !use_tla => {
+                let bad = if em.rng.chance(1, 2) { "error \"late element failure\"" } else { "function(x) x" };
+                body = format!("{body} + [{bad}]");
+                expect = Expect::Fail(1, "last element fails late".into());
+            }
+            12 => {
+                extra_flags.push("--ext-str".into());
+                extra_flags.push("dup=1".into());
+                extra_flags.push(if em.rng.chance(1, 2) { "--ext-code".into() } else { "--ext-str".into() });
+                extra_flags.push("dup=2".into());
+                expect = Expect::Fail(1, "ext var defined twice".into());
             }
             _ => {
                 extra_flags.push("--ext-str-file".into());
